@@ -126,6 +126,18 @@ CLAIMED = {
         ref='DESIGN.md §6 C14', note='Immutability of Python list objects is a statement about the implementation and is established by the correspondence only. The library functions '
              'written in WAL (reverse filter partition sort) are regenerated from std.wal and compared by execution; no inductive proof through the evaluator.',
         technique='Lean 4 proof (operator = List function; finite-map refinement) + correspondence against Python list/dict oracle'),
+    'C15': dict(
+        text='All theorems are about Gen.stdEnv, regenerated from std.wal on every run. Expansion equations, proved by kernel evaluation of the model\'s '
+             'expand running the real macro bodies: when unless cond (1 clause+else, 2 clauses, else only, empty) for/list for dowhile until inc dec '
+             'set! defun car cdr cadr rising falling stable unstable always step-until step-while count signed sum timeframe (27 theorems); '
+             'macro_args_unevaluated (a user macro receives (print 1) unevaluated, nothing printed); gensym_dollar; template_hygienic (a decidable '
+             'check over every quasiquote template of std.wal/module.wal: no literal binder scopes over an unquoted user operand). '
+             'Correspondence and search: every library form with printing/assigning operands on a loaded trace vs its defining expression on a twin '
+             'interpreter (result, stdout, variables, final INDEX), user macros vs macroexpand and vs the quoted datum, operand variable named after '
+             'every template binder.',
+        ref='DESIGN.md §6 C15', note='Operands in the expansion theorems are opaque symbols (the macros only splice them); semantic equations for the temporal forms are the C03/C04 theorems '
+             'applied to the expansions and are otherwise covered by the twin differential. A false expansion theorem makes the kernel evaluation run into the proof time limit (reported as a broken obligation).',
+        technique='Lean 4 proof by kernel evaluation over the regenerated library (translator) + twin-interpreter differential'),
 }
 
 REASONS_PENDING = 'check under construction in this round (DESIGN.md §13 build order); not a claim of inapplicability'
